@@ -268,8 +268,38 @@ def loop_shape(ck, ctx):
     ck.ob("loop-shape", "break-only-after-failure", okb, "the normal epilogue is reached only when unfinished() is false, or by `tasks_failed > 0` with nothing running and no progress (break tests %s)" % brks, span=b.loc, fn=b.nname)
 
 
+# unwrap()/expect() sites in the modules that run on a task's worker thread, confirmed by reading: none of them is on data that comes from the
+# command (its output, its depfile): a panic there kills the thread before it reports, and Runner::wait then blocks for ever
+WORKER_UNWRAPS = {
+    "process_posix::check_posix_spawn": ["Result::unwrap"],      # strerror text of a libc constant
+    "process_posix::check_ret_errno": ["Option::unwrap", "Result::unwrap"],
+    "process_posix::run_command": ["Result::unwrap"],          # CString::new(cmdline): a NUL in the command line (manifest text, not command output)
+    "task::Runner::start": ["Option::unwrap"],                 # build.cmdline (main thread)
+    "task::Runner::wait": ["Result::unwrap"],                  # recv() (main thread)
+}
+
+
+def worker_panics(ck, ctx, rule="worker-reports"):
+    F = ctx.F
+    seen = {}
+    for b in F.view_bodies():
+        if b.expn or not b.nname.startswith(("task::", "process_posix::", "depfile::")):
+            continue
+        us = []
+        for bb, t in b.calls():
+            c = callee_of(t)
+            if c.endswith(("Option::unwrap", "Result::unwrap", "Option::expect", "Result::expect", "Result::unwrap_err", "Result::expect_err")):
+                us.append("::".join(c.split("::")[-2:]))
+        explicit = [1 for blk in b.blocks if not blk["cleanup"] and blk["term"] and blk["term"]["k"] == "call" and blk["term"]["target"] < 0 and callee_of(blk["term"]).startswith(("std::rt::panic", "core::panicking", "std::panicking", "std::rt::begin_panic"))]
+        if us or explicit:
+            seen[F.owner(b.nname)] = sorted(seen.get(F.owner(b.nname), []) + us + ["panic!"] * len(explicit))
+    bad = {k: v for k, v in seen.items() if v != sorted(WORKER_UNWRAPS.get(k, []))}
+    ck.ob(rule, "no-new-panic-on-worker-thread", not bad, "unwrap()/expect()/panic! in task.rs, process_posix.rs and depfile.rs appear only at the sites confirmed by reading (none handles command output): unexpected %s" % (bad or "none"), span="task::run_task")
+
+
 def worker_reports(ck, ctx):
     F = ctx.F
+    worker_panics(ck, ctx)
     clo = ck.need("closure task::Runner::start::{closure#0}", F.body("task::Runner::start::{closure#0}"))
     cfg = ctx.cfg(clo)
     R = ctx.res(clo)
